@@ -6,6 +6,21 @@ HERE = os.path.dirname(os.path.dirname(os.path.abspath(__file__)))
 
 # id -> (category, technique, level text, level note, design ref)
 CHECKS = {
+ "C01": ("exploration",
+         "runtime monitor: reference-model oracle (code-model interpreter + pair-coinductive bisimulation against the registry) and reference SCALE codec round trips over generated programs and real chain metadata",
+         "For thousands (quick) / >100k (thorough) of (registry, settings) pairs the real generator runs; every id's named type is parsed, looked up in the parsed emitted module and related to the registry type by bisimulation, then reference encodings are decoded by interpreting the code type. Held = no divergence on the executions observed; hook counters prove every TypeDef arm, parameter matching and Cow unwrapping were reached.",
+         "Trusted: the scale-info simulator (validated against registries compiled with real scale-info in the corpus check), the code-model classifier, the reference codec (cross-checked per encoding against scale-value). Only WF and coincidence-free inputs of DESIGN.md section 3 are judged.",
+         "DESIGN.md section 6 C01"),
+ "C03": ("exploration",
+         "runtime monitor: outcome-based bisimulation of every same-path family member against the single emitted item, plus an independent shape relation after de-duplication, over completely enumerated small family spaces and random/merged registries",
+         "All generic and associated-type families up to the stated size bound are enumerated (thorough: completely) in every registration order, plus random larger families, two-versions-of-one-crate merges and Polkadot; on Ok every member must be faithfully represented by the one emitted item; after ensure_unique_type_paths path mates must be same-shaped by the oracle's own relation. Known findings (parameter coincidence) are keyed and reported as such.",
+         "Trusted: the bisimulation and regeq oracles; hook events are used only for diagnosis text. Families beyond the enumerated bound are sampled.",
+         "DESIGN.md section 6 C03"),
+ "C04": ("exploration",
+         "runtime monitor: frame-condition diff, oracle shape classes, idempotence and naming checks on ensure_unique_type_paths over enumerated and random same-path families",
+         "R, R'=dedup(R), R''=dedup(R') are compared field by field; renames must be confined to families the oracle's own relation splits, generation must stop failing with DuplicateTypePath, coincidence-free instantiations must stay together, R''==R', names must be old+1..k by first appearance. Known findings (suffix collision, parameter coincidence) are keyed on input predicates.",
+         "Trusted: regeq as the meaning of 'differently shaped' (same definition up to the root's generic arguments, recorded nested arguments and variant indices included).",
+         "DESIGN.md section 6 C04"),
  "C15": ("exploration",
          "runtime monitor: strip-and-compare + output-side indentation checker over an exhaustively enumerated small input space and random/crate-produced inputs",
          "Every string over a 9-character alphabet up to length 7 (quick) / 9 (thorough) is run through the real formatter and judged by two oracles written from the statement (content preservation, output-side indentation rule), plus random long inputs straddling the 32-character look-ahead and every description the crate produces for generated registries. Held = no violation on the executions observed; the enumeration is complete for its bound.",
